@@ -262,6 +262,13 @@ def stepOp (d : DS) (op implObs : String) : DS × String × List String × List 
       -- the last compaction has none in the compacted database
       finish d s "bf=same" (if implRes = "bf=same" then [] else [s!"C14 compact-invents-bitfield {implRes}"]) ["branch:bfcheck"]
     | "compact" =>
+      -- `CompactDatabase` reads the record of every registered torrent that has metadata: it fails when one is
+      -- missing (only after finding F08: `CleanDatabase` deleted the record of a live torrent)
+      if (compact s).isNone then
+        finish { d with lastCompact := none, implCompact := none } s (if implRes.startsWith "err:" then implRes else "err:compact")
+          [if d.taint.contains "idreuse" then "C14 known-F08-compact-fails-record-missing" else s!"C14 compact-failed res={implRes}"]
+          ["branch:compact-fails"]
+      else
       let c := (compact s).getD []
       -- oracle on the implementation's result
       let (cviol, implC) :=
@@ -345,7 +352,11 @@ def stepOp (d : DS) (op implObs : String) : DS × String × List String × List 
           -- session did not have: that is no mismatch (a clash of its port is reported by port conservation)
           -- the restart is judged without these torrents (their ports count as free)
           let reloaded := o0.live.filter fun t => o.invalid.contains t.id && !(o.live.map (·.id)).contains t.id
-          let o' := { o0 with live := o0.live.filter (fun t => !reloaded.contains t), free := o0.free ++ reloaded.map (·.f.port) }
+          -- a port that two live torrents shared before the restart (finding F07, reported when it arose) is still
+          -- owned by the other one when the record of one of them fails: it cannot be demanded free
+          let shared := (o.live.filter fun t => (o.live.filter fun u => u.f.port = t.f.port).length ≥ 2).map (·.f.port)
+          let o' := { o0 with live := o0.live.filter (fun t => !reloaded.contains t),
+                              free := o0.free ++ reloaded.map (·.f.port) ++ shared }
           if restartEquiv resume bad o o' then []
           else
             -- which clause failed: the torrents whose record does not load, or the others
